@@ -363,6 +363,26 @@ Proof.
     + intros i a x He. discriminate.
 Qed.
 
+(* the executor has looked up the request of a call's current attempt and the call still waits with an empty mailbox:
+   then the in-flight entry is still there (closeInFlight, the only other party that removes entries, sends the
+   connection error to the very call whose entry it removes) *)
+Definition Looked (s : st) : Prop :=
+  forall id att c, exe s = ELooked id att -> lookup id (calls s) = Some c -> attempts c = att ->
+    pending_empty c = true -> entry_is s id att = true.
+
+Lemma pres_ExecAbandon s id s' : Inv s -> Looked s -> step repaired_c s (ExecAbandon id) = Some s' -> Inv s'.
+Proof.
+  intros I Lk H. inv_step H. destruct (exe s) as [|k att|] eqn:Hex; try discriminate.
+  destruct (k =? id) eqn:Ek; [|discriminate]. same_id Ek. injection H as <-.
+  split_inv; try (exact (inv_entry s I)); try (exact (inv_phase s I)); try (exact (inv_holding s I)); try (exact (inv_link s I)).
+  - intros i a [He|He]; discriminate.
+  - intros i x Hx Hp. destruct (inv_orphan s I i x Hx Hp) as [Ho|Ho]; [left; exact Ho|].
+    left. unfold exec_looked in Ho. rewrite Hex in Ho. apply andb_true_iff in Ho. destruct Ho as [E1 E2].
+    apply N.eqb_eq in E1. apply Nat.eqb_eq in E2. subst.
+    pose proof (Lk i (attempts x) x Hex Hx eq_refl Hp) as G. unfold entry_is in G. exact G.
+  - intros i a x He. discriminate.
+Qed.
+
 Lemma pres_CifDeliver s id s' : Inv s -> step repaired_c s (CifDeliver id) = Some s' -> Inv s'.
 Proof.
   intros I H. inv_step H. destruct (holding s) as [hh|] eqn:Hh; [discriminate|].
@@ -527,9 +547,9 @@ Proof.
   unfold pending_empty; simpl. rewrite andb_false_r. reflexivity.
 Qed.
 
-Theorem step_inv s e s' : Inv s -> step repaired_c s e = Some s' -> Inv s'.
+Theorem step_inv s e s' : Inv s -> Looked s -> step repaired_c s e = Some s' -> Inv s'.
 Proof.
-  intros I H. destruct e.
+  intros I Lk H. destruct e.
   - eapply pres_CallStart; eauto.
   - eapply pres_LoopTake; eauto.
   - eapply pres_LoopTakeOther; eauto.
@@ -540,6 +560,7 @@ Proof.
   - eapply pres_ExecLookup; eauto.
   - eapply pres_ExecDeliver; eauto.
   - eapply pres_ExecDeleted; eauto.
+  - eapply pres_ExecAbandon; eauto.
   - eapply pres_CifDeliver; eauto.
   - eapply pres_CifCleared; eauto.
   - eapply pres_ReconnBegin; eauto.
@@ -553,15 +574,144 @@ Proof.
   - eapply pres_CallReturn; eauto.
 Qed.
 
-Theorem run_inv es : forall s s', Inv s -> run repaired_c s es = Some s' -> Inv s'.
+Lemma looked_init : Looked init.
+Proof. intros id att c He. discriminate. Qed.
+
+Lemma pending_phase c : pending_empty c = true -> registered c = true /\ (ph c = PTaken \/ ph c = PWait) /\ mbox c = [].
 Proof.
-  induction es as [|e es IH]; intros s s' I H; simpl in H.
-  - injection H as <-. exact I.
-  - destruct (step repaired_c s e) as [s1|] eqn:Hs; [|discriminate]. eapply IH; [|exact H]. eapply step_inv; eauto.
+  unfold pending_empty. intros H. apply andb_true_iff in H. destruct H as [H H3]. apply andb_true_iff in H. destruct H as [H1 H2].
+  split; [exact H1|]. split; [destruct (ph c); try discriminate; auto|]. destruct (mbox c); [reflexivity|discriminate].
+Qed.
+
+(* Looked is preserved by every event *)
+Lemma looked_step s e s' : Inv s -> Looked s -> step repaired_c s e = Some s' -> Looked s'.
+Proof.
+  intros I Lk H id att c He Hc Ha Hp. unfold entry_is.
+  destruct e; inv_step H.
+  - (* CallStart *)
+    destruct (lookup id0 (calls s)) eqn:L; [discriminate|]. injection H as <-. proj. rewrite lookup_cons in Hc.
+    destruct (id0 =? id) eqn:E.
+    + injection Hc as <-. discriminate.
+    + exact (Lk id att c He Hc Ha Hp).
+  - (* LoopTake *)
+    destruct (is_exited s); [discriminate|]. destruct (holding s); [discriminate|].
+    destruct (lookup id0 (calls s)) as [c0|] eqn:L; [|discriminate]. destruct (ph c0) eqn:P; try discriminate.
+    injection H as <-. proj. rewrite (lookup_update _ _ _ _ _ L) in Hc. destruct (id =? id0) eqn:E.
+    + apply N.eqb_eq in E; subst id. injection Hc as <-. destruct (pending_phase _ Hp) as (R & _ & _). simpl in R.
+      destruct (inv_phase s I id0 c0 L) as (P1 & _). rewrite (P1 P) in R. discriminate.
+    + exact (Lk id att c He Hc Ha Hp).
+  - (* LoopTakeOther *)
+    destruct (is_exited s); [discriminate|]. destruct (holding s); [discriminate|]. injection H as <-. proj.
+    exact (Lk id att c He Hc Ha Hp).
+  - (* LoopFailFast *)
+    destruct (holding_is s id0); [|discriminate]. destruct (lookup id0 (calls s)) as [c0|] eqn:L; [|discriminate].
+    injection H as <-. proj. rewrite (lookup_update _ _ _ _ _ L) in Hc. destruct (id =? id0) eqn:E.
+    + apply N.eqb_eq in E; subst id. injection Hc as <-. destruct (pending_phase _ Hp) as (_ & _ & M). simpl in M.
+      destruct (mbox c0); discriminate.
+    + exact (Lk id att c He Hc Ha Hp).
+  - (* LoopRegister *)
+    destruct (holding_is s id0); [|discriminate]. simpl in H. destruct (is_up s); [|discriminate]. simpl in H.
+    destruct (mem_id id0 (inflight s)) eqn:Mm; [discriminate|]. simpl in H.
+    destruct (lookup id0 (calls s)) as [c0|] eqn:L; [|discriminate]. injection H as <-. proj.
+    rewrite (lookup_update _ _ _ _ _ L) in Hc. rewrite find_cons. destruct (id =? id0) eqn:E.
+    + apply N.eqb_eq in E; subst id. injection Hc as <-. rewrite N.eqb_refl. simpl in Ha. subst att. apply Nat.eqb_refl.
+    + rewrite N.eqb_sym, E. exact (Lk id att c He Hc Ha Hp).
+  - (* LoopSent *)
+    destruct (holding_is s id0) eqn:Hh; [|discriminate]. destruct (lookup id0 (calls s)) as [c0|] eqn:L; [|discriminate].
+    destruct (registered c0) eqn:R; [|discriminate]. injection H as <-. proj.
+    rewrite (lookup_update _ _ _ _ _ L) in Hc. destruct (id =? id0) eqn:E.
+    + apply N.eqb_eq in E; subst id. injection Hc as <-. simpl in Ha. subst att.
+      destruct (pending_phase _ Hp) as (_ & _ & M). simpl in M.
+      (* the loop only sends what it holds, and what it holds is in phase PTaken: the call was pending before the write too *)
+      destruct (inv_holding s I id0 Hh) as (x & Hx & Px). rewrite L in Hx. injection Hx as <-.
+      assert (Hp0 : pending_empty c0 = true) by (unfold pending_empty; rewrite R, Px, M; reflexivity).
+      exact (Lk id0 (attempts c0) c0 He L eq_refl Hp0).
+    + exact (Lk id att c He Hc Ha Hp).
+  - (* LoopSentOther *)
+    destruct (holding s) as [[|]|]; try discriminate. injection H as <-. proj. exact (Lk id att c He Hc Ha Hp).
+  - (* ExecLookup *)
+    destruct (exe s) eqn:Hex; try discriminate. destruct (find_att id0 (inflight s)) as [a|] eqn:Hf.
+    + destruct found; [|discriminate]. injection H as <-. proj. injection He as <- <-. rewrite Hf. apply Nat.eqb_refl.
+    + destruct found; [discriminate|]. injection H as <-. rewrite Hex in He. discriminate.
+  - (* ExecDeliver *)
+    destruct (exe s) as [|k a|] eqn:Hex; try discriminate. destruct (k =? id0); [|discriminate].
+    destruct (lookup id0 (calls s)); [|discriminate]. injection H as <-. proj. discriminate.
+  - (* ExecDeleted *)
+    destruct (exe s) as [| |k a] eqn:Hex; try discriminate. destruct (k =? id0); [|discriminate].
+    destruct (Bool.eqb deleted _); [|discriminate].
+    destruct (match find_att id0 (inflight s) with Some a0 => Nat.eqb a0 a | None => false end); injection H as <-; proj; discriminate.
+  - (* ExecAbandon *)
+    destruct (exe s) as [|k a|] eqn:Hex; try discriminate. destruct (k =? id0); [|discriminate]. injection H as <-. proj. discriminate.
+  - (* CifDeliver *)
+    destruct (holding s); [discriminate|]. destruct (find_att id0 (inflight s)) as [a|] eqn:Hf; [|discriminate].
+    destruct (lookup id0 (calls s)) as [c0|] eqn:L; [|discriminate]. injection H as <-. proj.
+    rewrite (lookup_update _ _ _ _ _ L) in Hc. rewrite find_remove. destruct (id =? id0) eqn:E.
+    + apply N.eqb_eq in E; subst id. injection Hc as <-. exfalso.
+      destruct (push_att_fields a ConnErr c0) as (F1 & F2 & F3 & F4 & F5 & F6).
+      (* the entry removed is the one the executor looked up (same attempt) or an older one; either way the call is not
+         left waiting with an empty mailbox under the attempt the executor holds *)
+      destruct (Nat.eqb a (attempts c0)) eqn:Ea.
+      * pose proof (pending_push_att_cur ConnErr c0) as Q. apply Nat.eqb_eq in Ea. rewrite <- Ea in Q. congruence.
+      * unfold push_att in Hp, Ha. rewrite Ea in Hp, Ha. subst att.
+        pose proof (Lk id0 (attempts c0) c0 He L eq_refl Hp) as G. unfold entry_is in G. rewrite Hf in G. congruence.
+    + exact (Lk id att c He Hc Ha Hp).
+  - (* CifCleared *)
+    destruct (holding s); [discriminate|]. destruct (nil_b (inflight s)); [|discriminate]. injection H as <-. proj.
+    exact (Lk id att c He Hc Ha Hp).
+  - (* ReconnBegin *)
+    destruct (holding s); [discriminate|]. destruct (is_up s); [|discriminate]. injection H as <-. proj.
+    exact (Lk id att c He Hc Ha Hp).
+  - (* RedialSwap *)
+    destruct (is_redial s && negb (cif_pending s) && nil_b (inflight s))%bool; [|discriminate]. injection H as <-. proj.
+    exact (Lk id att c He Hc Ha Hp).
+  - (* RedialAttempt *)
+    destruct (is_redial s && Nat.eqb n (redial_n s) && negb (slept s))%bool; [|discriminate]. injection H as <-. proj.
+    exact (Lk id att c He Hc Ha Hp).
+  - (* RedialDialed *)
+    destruct (lnk s); try discriminate; [destruct (slept s); [|discriminate]|]; injection H as <-; proj;
+      exact (Lk id att c He Hc Ha Hp).
+  - (* LoopExit *)
+    destruct (holding s); [discriminate|]. destruct (nil_b (inflight s) && negb (is_exited s))%bool; [|discriminate].
+    injection H as <-. proj. exact (Lk id att c He Hc Ha Hp).
+  - (* CallRecv *)
+    destruct (lookup id0 (calls s)) as [c0|] eqn:L; [|discriminate]. destruct (ph c0) eqn:P; try discriminate.
+    destruct (got c0); [discriminate|]. destruct (existsb _ _); [|discriminate]. injection H as <-. proj.
+    rewrite (lookup_update _ _ _ _ _ L) in Hc. destruct (id =? id0) eqn:E.
+    + apply N.eqb_eq in E; subst id. injection Hc as <-. destruct (pending_phase _ Hp) as (_ & [Q|Q] & _); discriminate.
+    + exact (Lk id att c He Hc Ha Hp).
+  - (* CallExiting *)
+    destruct (is_exited s); [|discriminate]. destruct (lookup id0 (calls s)) as [c0|] eqn:L; [|discriminate].
+    destruct (ph c0) eqn:P; try discriminate. injection H as <-. proj.
+    rewrite (lookup_update _ _ _ _ _ L) in Hc. destruct (id =? id0) eqn:E.
+    + apply N.eqb_eq in E; subst id. injection Hc as <-. destruct (pending_phase _ Hp) as (_ & [Q|Q] & _); discriminate.
+    + exact (Lk id att c He Hc Ha Hp).
+  - (* CallRetry *)
+    destruct (lookup id0 (calls s)) as [c0|] eqn:L; [|discriminate]. destruct (ph c0) eqn:P; try discriminate.
+    destruct (got c0) as [[]|]; try discriminate. destruct (retry c0); [|discriminate]. injection H as <-. proj.
+    rewrite (lookup_update _ _ _ _ _ L) in Hc. destruct (id =? id0) eqn:E.
+    + apply N.eqb_eq in E; subst id. injection Hc as <-. destruct (pending_phase _ Hp) as (R & _ & _). discriminate.
+    + exact (Lk id att c He Hc Ha Hp).
+  - (* CallReturn *)
+    destruct (lookup id0 (calls s)) as [c0|] eqn:L; [|discriminate]. destruct (ph c0) eqn:P; try discriminate.
+    destruct (got c0); [|discriminate]. destruct (outcome_eqb _ _ && _)%bool; [|discriminate]. injection H as <-. proj.
+    rewrite (lookup_update _ _ _ _ _ L) in Hc. destruct (id =? id0) eqn:E.
+    + apply N.eqb_eq in E; subst id. injection Hc as <-. destruct (pending_phase _ Hp) as (_ & [Q|Q] & _); discriminate.
+    + exact (Lk id att c He Hc Ha Hp).
+Qed.
+
+Theorem run_inv es : forall s s', Inv s -> Looked s -> run repaired_c s es = Some s' -> Inv s' /\ Looked s'.
+Proof.
+  induction es as [|e es IH]; intros s s' I Lk H; simpl in H.
+  - injection H as <-. split; assumption.
+  - destruct (step repaired_c s e) as [s1|] eqn:Hs; [|discriminate].
+    eapply IH; [eapply step_inv; eauto|eapply looked_step; eauto|exact H].
 Qed.
 
 Theorem reachable_inv es s : run repaired_c init es = Some s -> Inv s.
-Proof. apply run_inv. exact inv_init. Qed.
+Proof. intros H. exact (proj1 (run_inv es init s inv_init looked_init H)). Qed.
+
+Theorem reachable_looked es s : run repaired_c init es = Some s -> Looked s.
+Proof. intros H. exact (proj2 (run_inv es init s inv_init looked_init H)). Qed.
 
 (* ---------- how one step can change one call *)
 Inductive change (s : st) (id : N) : option call -> option call -> Prop :=
@@ -614,6 +764,7 @@ Proof.
   - destruct (exe s) as [| |k att]; try discriminate. destruct (k =? id); [|discriminate].
     destruct (Bool.eqb deleted _); [|discriminate].
     destruct (match find_att id (inflight s) with Some a => Nat.eqb a att | None => false end); injection H as <-; apply ch_same.
+  - destruct (exe s) as [|k att|]; try discriminate. destruct (k =? id); [|discriminate]. injection H as <-. apply ch_same.
   - destruct (holding s); [discriminate|]. destruct (find_att id (inflight s)) as [att|] eqn:Hf; [|discriminate].
     destruct (lookup id (calls s)) as [c|] eqn:L; [|discriminate]. injection H as <-. upd_change L i id.
     apply ch_connerr; exact Hf.
@@ -677,12 +828,12 @@ Qed.
 
 Theorem reachable_prov : forall es s, run repaired_c init es = Some s -> Prov s.
 Proof.
-  assert (G : forall es s s', Inv s -> Prov s -> run repaired_c s es = Some s' -> Prov s').
-  { induction es as [|e es IH]; intros s s' I P H; simpl in H.
+  assert (G : forall es s s', Inv s -> Looked s -> Prov s -> run repaired_c s es = Some s' -> Prov s').
+  { induction es as [|e es IH]; intros s s' I Lk P H; simpl in H.
     - injection H as <-. exact P.
     - destruct (step repaired_c s e) as [s1|] eqn:Hs; [|discriminate].
-      eapply IH; [eapply step_inv; eauto|eapply prov_step; eauto|exact H]. }
-  intros es s H. eapply G; [exact inv_init| |exact H]. intros id c Hc. discriminate.
+      eapply IH; [eapply step_inv; eauto|eapply looked_step; eauto|eapply prov_step; eauto|exact H]. }
+  intros es s H. eapply G; [exact inv_init|exact looked_init| |exact H]. intros id c Hc. discriminate.
 Qed.
 
 (* the library re-sends nothing on its own: the attempt number of a call changes only through the caller's
